@@ -4,7 +4,9 @@
 
    Model: Model/Parse.v (Session.Parse as it is).  Reference decoder: Spec/RFC.v (ref_decode), written
    from the header layouts and the documented EtherType / IP protocol / UDP port tables.
-   [agrees r e]: Parse returns an error exactly when the reference reports one, and on success the
+   [agrees r e]: Parse returns an error exactly when the reference reports one, of the same class (the sentinel the
+   error wraps: ErrFrameLen for a truncated / length-inconsistent header, ErrParseFrame for the hard-coded ARP
+   validation; the error text is never modelled), and on success the
    projection (PayloadID, MACs, IPs, ports, presence and start of IPv4/IPv6/UDP/TCP, payload start) is equal. *)
 From PV Require Import Base.Prelude Base.Slice Model.Parse Model.ParseFixes Spec.RFC Model.ParseKnown Proofs.Parse Proofs.ParseRef Proofs.ParseRefEq.
 From Coq Require Import String.
